@@ -10,9 +10,9 @@
     names.  [font_equiv] is the equality of the property: everything but the creator, numbers /
     colours under the part equalities, feature text up to line endings, stores byte-identical. *)
 Require Import Norad.Model.GlifSpec Norad.Model.GlifEncode Norad.Proofs.GlifEncodeP Norad.Proofs.GlifRoundtripP Norad.Proofs.GlifFullP.
-Require Import Norad.Model.Base Norad.Model.FontRT Norad.Model.FontToy Norad.Model.FontNum Norad.Model.FontRealInfo Norad.Model.FontReal Norad.Model.FontRealPlist Norad.Model.FontRealFiles Norad.Model.FontInfoFile Norad.Model.FontInfoSchema
+Require Import Norad.Model.Base Norad.Model.FontRT Norad.Model.FontToy Norad.Model.FontNum Norad.Model.FontRealInfo Norad.Model.FontReal Norad.Model.FontRealPlist Norad.Model.FontRealFiles Norad.Model.FontInfoFile Norad.Model.FontInfoSchema Norad.Model.FontInfoView
                Norad.Proofs.FontRealInfoP
-               Norad.Proofs.FontRTP Norad.Proofs.FontToyP Norad.Proofs.FontNumP Norad.Proofs.FontRealP Norad.Proofs.PlistNfP Norad.Proofs.FontRealFilesP Norad.Proofs.FontInfoFileP.
+               Norad.Proofs.FontRTP Norad.Proofs.FontToyP Norad.Proofs.FontNumP Norad.Proofs.FontRealP Norad.Proofs.PlistNfP Norad.Proofs.FontRealFilesP Norad.Proofs.FontInfoFileP Norad.Proofs.FontInfoViewP.
 Open Scope N_scope.
 
 Theorem C01_roundtrip : forall (S : sig), sig_ok S -> forall o (f : font S),
@@ -345,3 +345,41 @@ Theorem C01_fontinfo_file_part_lawful : forall pf ff fi,
   (forall z, int_ok z = true -> plist_int (fi z) = Some z) ->
   forall O, part_ok (P_fontinfo_file pf ff fi O).
 Proof. exact fontinfo_file_part_ok. Qed.
+
+(** ---------- fontinfo.plist: file shape and rules composed ----------
+    Model/FontInfoView.v gives the view [raw_of_sval] of a schema value as C13's record [FI.raw] (what
+    the hand-written deserialisers and FontInfo::validate look at: guideline shapes and angles, gasp
+    records, OS/2 selection / family class / Panose / width class, character set, u32 fields,
+    unitsPerEm, the lengths of the blue / stem lists and of the WOFF metadata lists, the creation
+    date) and composes reader and writer of the file from both layers:
+      load_info_file = plist tree -> read_s font_info_schema -> FI.fi_load on the view;
+      save_info_file = FI.fi_save on the view (validate, serialiser's angle test) -> tree of write_s.
+    PROVED: a well-typed value whose view [validate] and the serialiser accept is written, and what
+    is written is loaded as the same value with the same view ([C01_fontinfo_value_roundtrip]); the
+    part [P_info_file] with the plist tree as file content is lawful ([C01_info_file_part_lawful]);
+    its domain is inhabited ([C01_info_file_domain_inhabited]).  Hypotheses: the two number-text
+    facts of L1 (H_ff, H_fi).
+    TIED: for every fontinfo.plist compared in the C01 / C04 runs the view of the value must pass
+    [FI.fi_load], as norad loaded that file (code 6 of Run/FontFiles.v).
+    What separates this from fontinfo.plist being the eighth tree-level file of the all-files
+    theorems: the font-level signature splits the info into (everything but guidelines, guidelines
+    with identifiers, libs through lib.plist); [P_info_file] carries the whole record as one
+    value, and the laws of the signature about that split (info_ok_stripped, the default value,
+    identifiers kept by the equality, closedness of the reader — which fails for non-canonical
+    numbers exactly as for kerning) are not instantiated for it.  The all-files theorems therefore
+    still read and write fontinfo.plist through [P_info_real] (C13's [FI.raw] as file content). *)
+Theorem C01_fontinfo_value_roundtrip : forall pf ff fi,
+  (forall x, fl_finite x = true -> pf (ff x) = Some x) ->
+  (forall z, int_ok z = true -> plist_int (fi z) = Some z) ->
+  forall v i,
+  wt font_info_schema v = true -> FI.decode (raw_of_sval v) = Some i -> FI.fi_save i = Ok i ->
+  exists n, save_info_file ff fi v = Some n /\ load_info_file pf n = Some v /\
+            FI.fi_load (raw_of_sval v) = Ok i.
+Proof. exact fontinfo_value_roundtrip. Qed.
+Theorem C01_info_file_part_lawful : forall pf ff fi,
+  (forall x, fl_finite x = true -> pf (ff x) = Some x) ->
+  (forall z, int_ok z = true -> plist_int (fi z) = Some z) ->
+  forall O, part_ok (P_info_file pf ff fi O).
+Proof. exact info_file_part_ok. Qed.
+Example C01_info_file_domain_inhabited : info_value_ok sval_none.
+Proof. exact sval_none_ok. Qed.
